@@ -292,6 +292,11 @@ impl CompressedUsedLeafsIndexes {
         CompressedUsedLeafsIndexes { count }
     }
 
+    #[cfg(hbs_lms_verif)]
+    pub fn verif_count(&self) -> u64 {
+        self.count
+    }
+
     pub fn from_slice(data: &[u8]) -> Self {
         CompressedUsedLeafsIndexes {
             count: u64::from_be_bytes(data.try_into().unwrap()),
